@@ -99,7 +99,8 @@ fn run_cmd_module(mon: &mut Monitor, mseed: u64) {
     let m = cmdgen::gen_command_module(&mut mr, &CmdCfg { reuse_names: mseed & 1 == 1 });
     let doc = print::document(&m);
     let Some(machine) = compile(mon, "cmd", &doc, mseed) else { return };
-    let class = if m.uses_substruct_to_empty() { Some("substruct-to-empty-struct") } else { None };
+    // (the substruct-to-empty-struct defect is repaired in /repo: no special input class any more)
+    let class: Option<&str> = None;
     let mk_replay = |what: String, input: String| {
         let doc = doc.clone();
         move || json!({"workload": "cmd", "module_seed": mseed, "entry": what, "input": input, "doc": doc})
@@ -168,7 +169,8 @@ fn run_quirk_module(mon: &mut Monitor, workload: &'static str, mseed: u64) {
     let m = r#gen::gen_module(&mut mr, &cfg);
     let doc = print::document(&m);
     let Some(machine) = compile(mon, workload, &doc, mseed) else { return };
-    let class = if m.uses_substruct_to_empty() { Some("substruct-to-empty-struct") } else { None };
+    // (the substruct-to-empty-struct defect is repaired in /repo: no special input class any more)
+    let class: Option<&str> = None;
     for (fi, f) in m.funcs.iter().enumerate() {
         let mut ar = Rng::new(mix2(mseed, 0xA765 + fi as u64));
         for (ai, a) in r#gen::gen_args(&mut ar, &m, f, 6).iter().enumerate() {
